@@ -7,9 +7,11 @@ Usage: python c04_oracle.py [--pkgdir DIR] [--model FILE ...]   -> JSON list of 
 import os
 import sys
 sys.path.insert(0, os.path.dirname(os.path.abspath(__file__)))
+import oracle_common  # noqa: E402
 from oracle_common import *  # noqa: F401,F403,E402
 from oracle_common import M, STRUCTS, ENUMS, ALIASES, py_of, null_admitting, flatten, vname, expected_validator, wire_names, Unmappable  # noqa: E402
 import enum, json, typing  # noqa: E401,E402
+from typing import Optional  # noqa: E402
 import attrs  # noqa: E402
 from lsprotocol import types  # noqa: E402
 
@@ -44,14 +46,21 @@ def main():
                 add(site, "wire-name-written", p["name"], wn[f.name][1])
             opt = bool(p.get("optional")) or null_admitting(p["type"])
             lit = p["type"]["kind"] == "stringLiteral"
-            try:
-                et = py_of(p["type"])
+            if oracle_common.contains_literal(p["type"]):
+                es = oracle_common.shape_meta(p["type"])
                 if opt:
-                    et = Optional[et]
-                if f.type != et:
-                    add(site, "annotation", et, f.type)
-            except Unmappable as e:
-                add(site, "annotation", f"unmappable {e}", f.type)
+                    es = oracle_common._U([es, "None"])
+                if oracle_common.shape_py(f.type) != es:
+                    add(site, "annotation", es, oracle_common.shape_py(f.type))
+            else:
+                try:
+                    et = py_of(p["type"])
+                    if opt:
+                        et = Optional[et]
+                    if f.type != et:
+                        add(site, "annotation", et, f.type)
+                except Unmappable as e:
+                    add(site, "annotation", f"unmappable {e}", f.type)
             required = (not opt) and (not lit)
             if (f.default is attrs.NOTHING) != required:
                 add(site, "required", required, f.default)
